@@ -104,15 +104,28 @@ class MolecularContainer:
         # make a new configuration to hold the average values
         avr_conformation = ConformationContainer(
             name='average', parameters=parameters, molecular_container=self)
-        container = self.conformations[self.conformation_names[0]]
-        for group in container.get_groups_for_calculations():
+        # every group that exists in at least one conformation is averaged
+        # over the conformations that contain it
+        groups = []
+        for index, name in enumerate(self.conformation_names):
+            container = self.conformations[name]
+            for group in container.get_groups_for_calculations():
+                # skip groups already covered by an earlier conformation
+                found = [
+                    self.conformations[earlier].find_group(group)
+                    for earlier in self.conformation_names[:index]]
+                if not any(g and g.use_in_calculations() for g in found):
+                    groups.append(group)
+        for group in groups:
             # new group to hold average values
             avr_group = group.clone()
             # sum up all groups ...
+            number_of_groups = 0
             for name in self.conformation_names:
                 group_to_add = self.conformations[name].find_group(group)
                 if group_to_add:
                     avr_group += group_to_add
+                    number_of_groups += 1
                 else:
                     str_ = (
                         'Group {0:s} could not be found in '
@@ -120,7 +133,7 @@ class MolecularContainer:
                             group.atom.residue_label, name))
                     _LOGGER.warning(str_)
             # ... and store the average value
-            avr_group = avr_group / len(self.conformation_names)
+            avr_group = avr_group / number_of_groups
             avr_conformation.groups.append(avr_group)
         # store information on coupling in the average container
         if len(list(filter(lambda c: c.non_covalently_coupled_groups,
